@@ -23,7 +23,10 @@ REDUCED = ['gdown4', 'gammadown3', 'Kdown3', 'betaup3', 'dtbetaup3', 'rho',
            'enthalpy', 'rho_n', 'eweyl_n_down3', 'Weyl_invariants',
            'dtconserved']
 HELPERS = ['h:s_covd_u', 'h:Lie_dd', 'h:s_curl', 'h:tetrad_base',
-           'h:null_ray', 'h:st_covd_d', 'h:null_vector_base']
+           'h:null_ray', 'h:st_covd_d', 'h:null_vector_base',
+           # a second surface function on the same instance (an ellipsoid,
+           # ingoing rays): nothing may be remembered from the first surface
+           'h:null_ray_ell']
 # (options given as arrays, unsorted radii: they are caller-owned objects too)
 CORE_KW = {'center': np.array([3.0, 3.0, 3.0]),
            'extract_radii': np.array([1.2, 0.8]), 'lmax': 2}
@@ -156,7 +159,10 @@ def config_inputs(cfg, N, seed):
          'U': np.array(v4(tt, X, Y, Z, M)),
          'T': np.array(tn(tt, X, Y, Z, M)),
          'r': np.sqrt((X - 3.0) ** 2 + (Y - 3.0) ** 2 + (Z - 3.0) ** 2
-                      + 0.5)}
+                      + 0.5),
+         'ell': np.sqrt(1.7 * (X - 3.0) ** 2 + 0.6 * (Y - 2.5) ** 2
+                        + (Z - 3.2) ** 2 + 0.3 * (X - 3.0) * (Z - 3.2)
+                        + 0.8)}
     _INPUT_CACHE[key] = (inp, kw, F, param)
     return _INPUT_CACHE[key]
 
@@ -212,6 +218,8 @@ def do_op(rel, op, F):
             return rel.tetrad_base()
         if op == 'h:null_ray':
             return rel.null_ray_expansion(F['r'], 'out')
+        if op == 'h:null_ray_ell':
+            return rel.null_ray_expansion(F['ell'], 'in')
         if op == 'h:null_vector_base':
             return rel.null_vector_base()
         if op == 'h:st_covd_d':
